@@ -3,7 +3,10 @@ import os, pickle, re, shutil, sys
 from common import *
 from mirsym import mir as M, enums as E
 
-MIR_TARGET = os.path.join(CACHE, 'mir-target')
+# cargo keys the units of workspace members by their path *relative to the workspace root*: scratch copies under different roots would share
+# build-script output and rlibs in one target directory (and mtime-based freshness then takes another tree's output for current).  The registered
+# commands use one scratch root; parallel development runs that set VERIF_SCRATCH get a target directory of their own.
+MIR_TARGET = os.environ.get('VERIF_MIR_TARGET') or (os.path.join(os.environ['VERIF_SCRATCH'], 'mir-target') if os.environ.get('VERIF_SCRATCH') else os.path.join(CACHE, 'mir-target'))
 CRATES = {'anemo': 'crates/anemo', 'anemo-tower': 'crates/anemo-tower', 'anemo-build': 'crates/anemo-build', 'examples': 'crates/examples'}
 _loaded = {}
 
